@@ -76,7 +76,11 @@ Record case := {
   c_high : N;
   c_reqs : list (nat * bool);
   c_impl : list (option N);
-  c_impl_seen : list N            (* final cache['seen'], sorted ascending; [] if no cache used *)
+  c_impl_seen : list N;           (* final cache['seen'], sorted ascending; [] if no cache used *)
+  c_ref : list (option N)         (* answers of the harness's independent reference (value at the position of the
+                                     (idx+1)-th first appearance, located with numpy): the reference decides the
+                                     python-side clause for indices/ranges too large for a Coq literal and is itself
+                                     checked against [spec] on every case that reaches Coq *)
 }.
 
 Definition res_view (r : result) : option (option N) :=
@@ -109,12 +113,25 @@ Fixpoint final_cache (fuel : nat) (s : list N) (high : N) (c : cache) (reqs : li
   | (_, false) :: r => final_cache fuel s high c r
   end.
 
+(** the harness's reference answers are the [spec] values (no range clause: it is a statement about the reference) *)
+Fixpoint ref_ok (s : list N) (high : N) (reqs : list (nat * bool)) (r : list (option N)) : bool :=
+  match reqs, r with
+  | [], [] => true
+  | (idx, _) :: q, o :: r' =>
+      (match o with
+       | None => (high <=? N.of_nat idx)%N
+       | Some v => (N.of_nat idx <? high)%N && match spec s idx with Some w => N.eqb v w | None => false end
+       end) && ref_ok s high q r'
+  | _, _ => false
+  end.
+
 Definition agree (c : case) : bool :=
   eq_views (run_history (fuel_for c) (c_stream c) (c_high c) None (c_reqs c)) (c_impl c)
   && match final_cache (fuel_for c) (c_stream c) (c_high c) None (c_reqs c) with
      | Some (_, sn) => if list_eq_dec N.eq_dec (sortN sn) (c_impl_seen c) then true else false
      | None => match c_impl_seen c with [] => true | _ => false end
-     end.
+     end
+  && ref_ok (c_stream c) (c_high c) (c_reqs c) (c_ref c).
 
 (** the property's own decidable statement, applied to the implementation's answers *)
 Fixpoint ok_answers (s : list N) (high : N) (reqs : list (nat * bool)) (i : list (option N)) : bool :=
